@@ -195,6 +195,14 @@ impl fmt::Display for HumanFloatCount {
             Some((int_str, fract_str)) => (int_str, fract_str),
             None => (num.as_str(), ""),
         };
+        // The sign is not one of the digits that get grouped
+        let int_part = match int_part.strip_prefix('-') {
+            Some(digits) => {
+                f.write_char('-')?;
+                digits
+            }
+            None => int_part,
+        };
         let len = int_part.len();
         for (idx, c) in int_part.chars().enumerate() {
             let pos = len - idx - 1;
